@@ -79,3 +79,174 @@ func typeFactsAt(f *core.Func, at ast.Node) []typeFact {
 	}
 	return out
 }
+
+// A typeDispatch is a first-match dispatch on the dynamic type of one operand. Two spellings are the same dispatch:
+//
+//	switch x := E.(type) { case T1: A1  case T2: A2  default: D }
+//	if x, ok := E.(T1); ok { A1; return }  if x, ok := E.(T2); ok { A2; return }  D       (also as an else-if chain)
+//
+// Arms are in matching order; Default is what runs when no arm matches (nil: nothing).
+type dispatchArm struct {
+	Type types.Type
+	Body ast.Node // the clause / the body of the if
+}
+
+type typeDispatch struct {
+	In      *core.Func
+	Pos     ast.Node
+	Operand ast.Expr
+	Arms    []dispatchArm
+	Default []ast.Stmt
+	HasDef  bool
+}
+
+func (d *typeDispatch) arm(name string) (int, ast.Node) {
+	for i, a := range d.Arms {
+		n := core.NamedTypeName(a.Type)
+		if n == "" && a.Type != nil {
+			n = a.Type.String()
+		}
+		if n == name {
+			return i + 1, a.Body
+		}
+	}
+	return 0, nil
+}
+
+// typeDispatchIn finds the dispatch of a function body: its first type switch, or else the longest run of
+// terminating comma-ok ifs on one operand in one block.
+func typeDispatchIn(f *core.Func) *typeDispatch {
+	info := f.Info()
+	var ts *ast.TypeSwitchStmt
+	ast.Inspect(f.Body, func(n ast.Node) bool {
+		if lit, ok := n.(*ast.FuncLit); ok && lit != f.Lit {
+			return false
+		}
+		if x, ok := n.(*ast.TypeSwitchStmt); ok && ts == nil {
+			ts = x
+		}
+		return ts == nil
+	})
+	if ts != nil {
+		d := &typeDispatch{In: f, Pos: ts}
+		switch a := ts.Assign.(type) {
+		case *ast.AssignStmt:
+			if ta, ok := a.Rhs[0].(*ast.TypeAssertExpr); ok {
+				d.Operand = ta.X
+			}
+		case *ast.ExprStmt:
+			if ta, ok := a.X.(*ast.TypeAssertExpr); ok {
+				d.Operand = ta.X
+			}
+		}
+		for _, c := range ts.Body.List {
+			cc := c.(*ast.CaseClause)
+			if cc.List == nil {
+				d.Default, d.HasDef = cc.Body, true
+			}
+			for _, e := range cc.List {
+				d.Arms = append(d.Arms, dispatchArm{Type: info.TypeOf(e), Body: cc})
+			}
+		}
+		return d
+	}
+	// comma-ok chain
+	armOf := func(ifs *ast.IfStmt) (ast.Expr, types.Type, bool) {
+		as, ok := ifs.Init.(*ast.AssignStmt)
+		if !ok || len(as.Lhs) != 2 || len(as.Rhs) != 1 {
+			return nil, nil, false
+		}
+		ta, ok := ast.Unparen(as.Rhs[0]).(*ast.TypeAssertExpr)
+		if !ok || ta.Type == nil {
+			return nil, nil, false
+		}
+		okv := core.VarOf(info, as.Lhs[1])
+		if okv == nil || core.VarOf(info, ifs.Cond) != okv {
+			return nil, nil, false
+		}
+		return ta.X, info.TypeOf(ta.Type), true
+	}
+	terminates := func(b *ast.BlockStmt) bool {
+		switch x := lastStmt(b.List).(type) {
+		case *ast.ReturnStmt:
+			return true
+		case *ast.ExprStmt:
+			if c, ok := x.X.(*ast.CallExpr); ok && core.CalleeName(info, c) == "builtin.panic" {
+				return true
+			}
+		}
+		return false
+	}
+	var best *typeDispatch
+	ast.Inspect(f.Body, func(n ast.Node) bool {
+		if lit, ok := n.(*ast.FuncLit); ok && lit != f.Lit {
+			return false
+		}
+		blk, ok := n.(*ast.BlockStmt)
+		if !ok {
+			return true
+		}
+		var d *typeDispatch
+		flush := func(rest []ast.Stmt) {
+			if d != nil && len(d.Arms) >= 2 && (best == nil || len(d.Arms) > len(best.Arms)) {
+				d.Default, d.HasDef = rest, len(rest) > 0
+				best = d
+			}
+			d = nil
+		}
+		for i, st := range blk.List {
+			ifs, isIf := st.(*ast.IfStmt)
+			if !isIf {
+				flush(blk.List[i:])
+				continue
+			}
+			// an if / else-if chain, every link a comma-ok assertion on the same operand
+			var arms []dispatchArm
+			var operand ast.Expr
+			good := true
+			var tail []ast.Stmt
+			for cur := ifs; cur != nil && good; {
+				op, t, isArm := armOf(cur)
+				if !isArm || (operand != nil && !core.SameRef(info, operand, op)) {
+					good = false
+					break
+				}
+				operand = op
+				arms = append(arms, dispatchArm{Type: t, Body: cur.Body})
+				switch e := cur.Else.(type) {
+				case nil:
+					cur = nil
+				case *ast.IfStmt:
+					cur = e
+				case *ast.BlockStmt:
+					tail, cur = e.List, nil
+				}
+			}
+			chained := ifs.Else != nil
+			if good && !chained && !terminates(ifs.Body) {
+				good = false // a non-terminating arm lets later arms run too: not a first-match dispatch
+			}
+			if !good || (d != nil && !core.SameRef(info, d.Operand, operand)) {
+				flush(blk.List[i:])
+				if !good {
+					continue
+				}
+			}
+			if d == nil {
+				d = &typeDispatch{In: f, Pos: ifs, Operand: operand}
+			}
+			d.Arms = append(d.Arms, arms...)
+			if chained {
+				// an else-if chain is complete in itself: what follows it runs for every arm that falls out
+				if tail != nil {
+					flush(tail)
+				} else {
+					flush(nil)
+				}
+			}
+		}
+		flush(nil)
+		return true
+	})
+	return best
+}
